@@ -183,6 +183,12 @@ func runC20(c *fw.Ctx) {
 			}
 			if probe {
 				c20Probe(c, ctx, client, engine, detail)
+			} else if idx%3 == 2 {
+				// (cheap look at the slot after every driver call: a leaked slot
+				// would make every later write wait out the acquisition timeout)
+				if free, active, alive, _ := engine.VerifState(); alive && (free != 1 || active) {
+					c.Violate("engine-unusable", fmt.Sprintf("after the call the writer slot is not free (free=%d txn=%v)", free, active), map[string]interface{}{"input": detail()})
+				}
 			}
 		})
 		// a panic may have left the engine in an unknown state: probe, and start
